@@ -254,23 +254,19 @@ func readBufioSize(reader *bufio.Reader, size int64) ([]byte, error, bool) {
 }
 
 func readBufioLine(reader *bufio.Reader) ([]byte, error, bool) {
-	result := []byte{}
-	var buf []byte
-	var err error
-	var isprefix bool = true
-	for isprefix {
-		buf, isprefix, err = reader.ReadLine()
-		if err != nil {
-			break
-		}
-		result = append(result, buf...)
-	}
+	// only the "\n" ends a line and is dropped; a "\r" before it belongs to
+	// the line (bufio.Reader.ReadLine would drop it)
+	result, err := reader.ReadBytes('\n')
+	iseof := len(result) == 0 && err == io.EOF
 	e := err
 	if e != nil && e == io.EOF {
 		e = nil
 	}
+	if n := len(result); n > 0 && result[n-1] == '\n' {
+		result = result[:n-1]
+	}
 
-	return result, e, len(result) == 0 && err == io.EOF
+	return result, e, iseof
 }
 
 func int2Fb(val int) int {
